@@ -187,7 +187,7 @@ def run_case(case, ctx):
                 sig = "prop:" + p[1].rstrip("2") + ":" + ":".join(p[2:4]) + "|Nref=%d" % (nref_arg if nref_arg is not None else pr.Nref)
                 # the same call made inside the eigenbasis context of the propagator's Hamiltonian is the same computation:
                 # its result, read after the context is left, is the same trajectory
-                inside = (p[1] in ("A", "B")) and bool(rng.random() < 0.35)
+                inside = (p[1] in ("A", "B", "T", "T2")) and bool(rng.random() < 0.35)
                 if inside:
                     ctx.event("calls_inside_a_basis_context")
                     with qr.eigenbasis_of(pr.Hamiltonian):
